@@ -9,6 +9,7 @@ mod core;
 mod engines;
 mod model;
 mod props;
+mod puppet;
 mod rawstate;
 mod rng;
 
